@@ -98,3 +98,18 @@ impl LuaIndex for LuaOperatorIndex {
         self.in_filed_operator_map.clear();
     }
 }
+
+/// Verification hook (feature `verif-hooks`, off by default): entry count of every container
+/// of this index, so that tests can observe growth of indexed state.
+#[cfg(feature = "verif-hooks")]
+impl LuaOperatorIndex {
+    pub fn verif_sizes(&self) -> Vec<(&'static str, usize)> {
+        vec![
+            ("operator.operators", self.operators.len()),
+            ("operator.type_operators_map", self.type_operators_map.len()),
+            ("operator.type_operators_map.entries", self.type_operators_map.values().map(|m| m.values().map(|s| s.len()).sum::<usize>()).sum::<usize>()),
+            ("operator.in_filed_operator_map", self.in_filed_operator_map.len()),
+            ("operator.in_filed_operator_map.entries", self.in_filed_operator_map.values().map(|m| m.len()).sum::<usize>()),
+        ]
+    }
+}
